@@ -188,6 +188,61 @@ def run_layout(tree, frontend, prefix):
                 recs.append({"tree": live, "at": n["id"], "depth": depth, "body": bname, "got": got, "slash": slash,
                              "badprops": bad, "status": r.status, "frontend": frontend,
                              "prefix": prefix.strip("/") or "root"})
+        # second phase: a name changes its kind (the file is deleted and a collection of the same
+        # name created; a leaf collection is deleted and a file of the same name uploaded) while
+        # the server keeps running - the listing of the parent follows
+        by = {n["id"]: n for n in live}
+        flips = []
+        if "F" in by:
+            flips.append(("F", True))
+        for leaf in ("H", "C"):
+            if leaf in by and not any(n["parent"] == leaf for n in live):
+                flips.append((leaf, False))
+                break
+        tree2 = [dict(n) for n in live]
+        done = []
+        for (i, tocoll) in flips:
+            old = path_of(live, i)
+            parent_kind = by[by[i]["parent"]]["kind"]
+            if w.request("DELETE", old).status not in range(200, 300):
+                continue
+            if tocoll:
+                newp = old + "/"
+                r = w.request("MKCOL", newp)
+                if r.status in range(200, 300):
+                    w.request("PROPPATCH", newp, [("Content-Type", "text/xml")],
+                              gamma.proppatch_body([("displayname", "node-" + i)]))
+            else:
+                newp = old.rstrip("/")
+                if parent_kind == "addressbook":
+                    r = w.request("PUT", newp, [("Content-Type", "text/vcard")], gamma.vcard("Node " + i, uid="node-" + i))
+                else:
+                    r = w.request("PUT", newp, [("Content-Type", "text/calendar")], gamma.ics_event("node-" + i, "node " + i))
+            for n in tree2:
+                if n["id"] == i:
+                    if r.status in range(200, 300):
+                        n["coll"] = tocoll
+                        n["kind"] = "plain" if tocoll else "file"
+                        done.append(by[i]["parent"])
+                    else:
+                        n["gone"] = True
+        tree2 = [n for n in tree2 if not n.get("gone")]
+        idcache.clear()
+        for parent in sorted(set(done)):
+            pp = path_of(live, parent)
+            r = w.request("PROPFIND", pp, [("Depth", "1"), ("Content-Type", "text/xml")], explicit)
+            got, slash = [], True
+            if r.status == 207:
+                rs, _ = alpha.parse_multistatus(r.body)
+                for x in rs:
+                    rt = x.prop_ok(DAV + "resourcetype")
+                    is_coll = rt is not None and any(ch.tag == DAV + "collection" for ch in rt)
+                    if is_coll and not (x.href or "").endswith("/"):
+                        slash = False
+                    got.append(ident_of(x.href, is_coll))
+            recs.append({"tree": tree2, "at": parent, "depth": 1, "body": "prop-after-kind-change", "got": got,
+                         "slash": slash, "badprops": [], "status": r.status, "frontend": frontend,
+                         "prefix": prefix.strip("/") or "root"})
         # the principal and the home sets: hrefs in their property values
         for target, ident in (("/user/", "principal"), (HOME, "home")):
             bad = sorted({p for (p, h, v) in property_hrefs(w, target) if v != "ok"})
